@@ -315,9 +315,10 @@ func (s *Sorter) SortedBlocks(ctx context.Context, removedCols map[int]struct{},
 			}
 
 			// append min row to block
+			// read the key before columns are removed: pkIndices address the original columns
+			copy(rowPK, objects.StrList(minRow).ReadColumns(pkIndices))
 			minRow = r.RemoveFrom(minRow)
 			row := dec.Decode(minRow)
-			slice.CopyValuesFromIndices(row, rowPK, pkIndices)
 			pkOK := pkIsDifferent(rowPK, prevRowPK)
 			if pkOK {
 				m := len(blk)
